@@ -508,7 +508,7 @@ def check_C12(tier, seed, t0):
     return finish('C12', tier, seed, 'exploration', parts, C12_RULE, ASSUME_COMMON, t0)
 
 
-C18_RULE = ('11 vector/SmallVector configurations (TC/TR/NTR elements, allocators with and without reallocate, 8/16/32/64-bit size types): appending n '
+C18_RULE = ('13 vector/SmallVector configurations (TC/TR/NTR/copy-only elements, allocators with and without reallocate, 8/16/32/64-bit size types): appending n '
             'elements one by one for every n in 1..600 (1..3000 thorough), seed-derived larger n and the tier maximum (50k quick / 2M thorough), from start states '
             '{empty, inline k<N, after reserve(r), after shrink_to_fit}; oracle: capacity changes <= 2*ceil(log2 n)+4, relocated elements <= 4n+16, '
             'growth factor >= 1.5 unless clamped by size_type, allocator requests == capacity changes; reserve(r)/shrink_to_fit grid k=0..12 x r=0..40; '
@@ -521,7 +521,7 @@ C19_RULE = ('FlatSet sizes n=0..400, 511..4097 and seed-derived n < 2000 (thorou
             'correct hint (lower bound; upper bound for present keys) <= 8 calls; heterogeneous keys equivalent to 4 / 64 / all elements (transparent comparator) '
             'within the same bound and count() equal to the run length; SmallSet inline lookups and the position searches of erase(key)/insert/emplace '
             '<= 2N+2 for N in {1,2,4,8,16}, every fill, keys visited in ascending and descending order; SmallSet over FlatSet in its large state within the '
-            'logarithmic bound; SmallSets of char / unsigned char / uint16_t / int / TR filled beyond N (N+1..N+45): whenever the elements still live inside the '
+            'logarithmic bound; inline SmallSets with a transparent comparator and heterogeneous keys equivalent to 2 / 4 / all elements; SmallSets of char / unsigned char / uint16_t / int / TR filled beyond N (N+1..N+45): whenever the elements still live inside the '
             'object the 2N+2 bound applies, and insertion with a correct hint in the large state (insert(hint, T&&), insert(hint, const T&), emplace_hint; '
             'std::set and FlatSet backing) costs <= 8 calls; '
             'the grid runs in a build with assertions and in a -DNDEBUG build; non-trivial = n >= 64 (FlatSet) or fill >= 2 (SmallSet); distinct = distinct (build, configuration, n); keys_probed counts the lookups')
@@ -549,7 +549,8 @@ C15_RULE = ('every algorithm exported by memory.hpp (construct_at, destroy/_at/_
             'lengths x source {T*, const T*, deque, list, forward_list, single-pass (copy family), move_iterator} x destination {T*, wrapped forward '
             'iterator over raw storage} x element {int, TC7, TR, NTR, ThrM (throwing move), move-only with throwing move, throwing move with noexcept copy} x every '
             'throw index, built as C++11/14/17/20; construct_at on C arrays; source and destination of different value types (uint8->bool, int->float, ...: values '
-            'converted, never raw bytes); construct_at(p, arg of type T) picks the same constructor overload as ::new (p) T(arg); oracle: '
+            'converted, never raw bytes); construct_at(p, arg of type T) picks the same constructor overload as ::new (p) T(arg); value-initialisation zeroes the scalar members of a '
+            'non-trivial type with an implicit default constructor; oracle: '
             'reference semantics (values, returned iterators/pairs as distances, source advance), on a throw nothing created survives, relocate sources '
             'stay alive, canaries around the destination intact; non-trivial = len >= 2 and (non-pointer iterator or non-trivial value or interior '
             'throw index); distinct = distinct grid point per language standard')
